@@ -3,6 +3,7 @@ package hxtimers
 import (
 	"fmt"
 	"sort"
+	"strings"
 )
 
 // Ref is the property (C05 + C06) spelled out directly: a table of the timers the client started,
@@ -26,6 +27,7 @@ type rt struct {
 	cancelled bool
 	done      bool // one-shot delivered
 	fired     int
+	grp       int // >= 0: the timer carries the shared object number grp (Case.Obj = shared:k); -1: an object of its own
 }
 
 type Ref struct {
@@ -54,10 +56,42 @@ type Ref struct {
 	lastDue         int64
 	haveLast        bool
 	StrictOrder     bool // check due order across advances too (requests are accepted before the next tick)
+	groups          int  // Case.Obj = shared:k: start number s carries the shared object s mod k
+	cfg             string
+	SharedPending   int // starts made while another scheduled timer carried the same object
+	ObjectReused    int // starts carrying an object whose earlier timer had been delivered or cancelled
 }
 
 func NewRef(c Case, finding func(key, what string)) *Ref {
-	return &Ref{sched: c.Sched, now: c.Time, Finding: finding, idx: map[int]*rt{}}
+	f := &Ref{sched: c.Sched, now: c.Time, idx: map[int]*rt{}, groups: parseGroups(c.Obj), cfg: c.Config()}
+	if f.cfg == "" {
+		f.Finding = finding
+	} else {
+		f.Finding = func(key, what string) { finding(key, what+" ["+strings.TrimSpace(f.cfg)+"]") }
+	}
+	return f
+}
+
+// lab: what a delivery of this timer looks like on Chan(): its id, or (shared objects) the label of its object.
+func (f *Ref) lab(t *rt) int {
+	if t.grp < 0 {
+		return t.id
+	}
+	return groupBase - t.grp
+}
+
+// tname names a delivery label in messages.
+func (f *Ref) tname(label int) string {
+	if label > groupBase {
+		return fmt.Sprintf("timer %d", label)
+	}
+	var ids []int
+	for _, t := range f.ts {
+		if t.grp == groupBase-label {
+			ids = append(ids, t.id)
+		}
+	}
+	return fmt.Sprintf("the *sched.Task object shared by the timers started as %v", ids)
 }
 
 // live calls visit for every timer that is scheduled, and forgets the others now and then.
@@ -123,7 +157,26 @@ func (f *Ref) Step(o Op, ob Obs) {
 			f.Finding("id-reused:"+tag, fmt.Sprintf("%s: start returned id %d which is still scheduled", tag, ob.ID))
 			f.multi = true
 		}
-		t := &rt{id: ob.ID, callAt: f.now}
+		t := &rt{id: ob.ID, callAt: f.now, grp: -1}
+		if f.groups > 0 {
+			t.grp = len(f.ts) % f.groups
+			shared, reused := false, false
+			for _, u := range f.ts {
+				if u.grp == t.grp {
+					if f.scheduled(u) {
+						shared = true
+					} else {
+						reused = true
+					}
+				}
+			}
+			if shared {
+				f.SharedPending++
+			}
+			if reused {
+				f.ObjectReused++
+			}
+		}
 		a := o.A
 		if o.K == "after" {
 			if a < 0 {
@@ -201,7 +254,7 @@ func (f *Ref) Step(o Op, ob Obs) {
 					return
 				}
 				for t.due <= f.now {
-					want = append(want, dv{t.due, t.id})
+					want = append(want, dv{t.due, f.lab(t)})
 					t.fired++
 					if t.period > 0 {
 						if f.sched == "wheel" {
@@ -231,27 +284,35 @@ func (f *Ref) Step(o Op, ob Obs) {
 		for _, id := range ob.Fired {
 			gotN[id]++
 		}
+		if f.groups > 0 {
+			for _, ds := range dues { // a shared object: which of its timers a delivery belongs to is not observable
+				sort.Slice(ds, func(i, j int) bool { return ds[i] < ds[j] })
+			}
+		}
 		span := fmt.Sprintf("advance %d -> %d", from, f.now)
 		for id, n := range wantN {
 			if gotN[id] < n {
-				f.Finding("not-delivered:"+tag, fmt.Sprintf("%s: %s: timer %d due at %v was delivered %d time(s), want %d", tag, span, id, dues[id], gotN[id], n))
+				f.Finding("not-delivered:"+tag, fmt.Sprintf("%s: %s: %s due at %v was delivered %d time(s), want %d", tag, span, f.tname(id), dues[id], gotN[id], n))
 			}
 		}
 		for id, n := range gotN {
 			if n > wantN[id] {
 				why := "is not due"
 				for _, t := range f.ts {
-					if t.id == id && t.cancelled {
+					if f.lab(t) == id && t.cancelled {
 						why = "was cancelled (Cancel returned true)"
-					} else if t.id == id && t.done && wantN[id] == 0 {
+					} else if f.lab(t) == id && t.done && wantN[id] == 0 {
 						why = "was already delivered"
 					}
+				}
+				if id <= groupBase && why != "is not due" {
+					why = "is not due that often (timers carrying it were cancelled or already delivered)"
 				}
 				key := "delivered-not-due:"
 				if why != "is not due" {
 					key = "delivered-after-cancel-or-twice:"
 				}
-				f.Finding(key+tag, fmt.Sprintf("%s: %s: timer %d delivered %d time(s), want %d: it %s", tag, span, id, n, wantN[id], why))
+				f.Finding(key+tag, fmt.Sprintf("%s: %s: %s delivered %d time(s), want %d: it %s", tag, span, f.tname(id), n, wantN[id], why))
 			}
 		}
 		// order: walk the delivered ids, consuming each id's due times in order
@@ -265,7 +326,7 @@ func (f *Ref) Step(o Op, ob Obs) {
 			d := ds[pos[id]]
 			pos[id]++
 			if have && d < last {
-				f.Finding("order:"+tag, fmt.Sprintf("%s: %s: timer %d (due %d) delivered after a timer due %d", tag, span, id, d, last))
+				f.Finding("order:"+tag, fmt.Sprintf("%s: %s: %s (due %d) delivered after a timer due %d", tag, span, f.tname(id), d, last))
 			}
 			last, have = d, true
 		}
@@ -331,6 +392,7 @@ func (f *Ref) fineTick(o Op, ob Obs) {
 	}
 	span := fmt.Sprintf("tick %d -> %d", from, f.now)
 	var commits []int
+	var commitLabs []int // what each commit looks like on Chan()
 	announced := 0
 	lastDue, have := int64(0), false
 	pending := -1
@@ -364,6 +426,7 @@ func (f *Ref) fineTick(o Op, ob Obs) {
 			t.done = true
 		}
 		commits = append(commits, id)
+		commitLabs = append(commitLabs, f.lab(t))
 	}
 	for k, st := range ob.Steps {
 		resolve(k)
@@ -405,7 +468,7 @@ func (f *Ref) fineTick(o Op, ob Obs) {
 	// transport: what arrives on Chan() is what was committed, in that order
 	same := len(commits) == len(ob.Fired)
 	for i := 0; same && i < len(commits); i++ {
-		same = commits[i] == ob.Fired[i]
+		same = commitLabs[i] == ob.Fired[i]
 	}
 	if !same {
 		f.Finding("transport:"+tag, fmt.Sprintf("%s: %s: committed %v but Chan() delivered %v", tag, span, commits, ob.Fired))
